@@ -399,6 +399,7 @@ def run_driver(exe, script_lines, wd, tag, nb, env_extra=None, timeout=900):
 
 
 GENERAL_ONLY = {"PIXMAN_DISABLE": "fast mmx sse2 ssse3"}
+C_FAST_PATHS = {"PIXMAN_DISABLE": "mmx sse2 ssse3"}            # the portable C fast paths, otherwise shadowed by SIMD ones
 
 
 def run_c10(args):
@@ -414,9 +415,9 @@ def run_c10(args):
     if args.replay:
         tr = os.path.join(wd, "replay.ndjson")
         script = args.replay if args.replay.endswith(".script") else args.replay + ".script"
-        envx = GENERAL_ONLY if os.path.exists(script + ".general") else None
         e = dict(os.environ)
-        e.update(envx or {})
+        if os.path.exists(script + ".general"):
+            e["PIXMAN_DISABLE"] = open(script + ".general").read().strip()
         vf.sh([exe, script, tr], timeout=600, env=e)
         vf.validate_batches(chk, "FormatsTrace", [tr], parallel=1)
         return chk.finish()
@@ -488,7 +489,9 @@ def save_replay_script(v, wd, general_traces):
             j += 1
         open(v["replay"] + ".script", "w").write("\n".join(lines[i:j]) + "\n")
         if base.startswith("gen"):
-            open(v["replay"] + ".script.general", "w").write("PIXMAN_DISABLE=fast mmx sse2 ssse3\n")
+            open(v["replay"] + ".script.general", "w").write("fast mmx sse2 ssse3\n")
+        if base.startswith("cfp"):
+            open(v["replay"] + ".script.general", "w").write("mmx sse2 ssse3\n")
     except Exception as e:       # replay convenience only
         vf.log("could not save replay script: %r" % e)
 
@@ -509,7 +512,7 @@ def tlc_cases(seed):
     cases = []
     for m in re.finditer(r'<<\s*"VF:case",\s*("(?:[^"\\]|\\.)*")\s*>>', r.out):
         cases.append(json.loads(json.loads(m.group(1))))
-    if len(cases) < 900:
+    if len(cases) < 1000:
         raise vf.Infra("CombineGen produced %d cases:\n%s" % (len(cases), r.out[-2000:]))
     return cases, r
 
@@ -542,8 +545,127 @@ def native_from8(F, a, r, g, b):
     return vals
 
 
-def gen_c01_cases(fmts, tcases, rng, tier):
+SPECIAL_CODES = {0: "null", 1 << 16: "solid", 2 << 16: "pixbuf", 3 << 16: "rpixbuf", 4 << 16: "unknown", 5 << 16: "any"}
+
+# used when harness/drv_fastpaths.c no longer compiles against pixman's internal header:
+# (op, source, source presentation kind, mask, component alpha, destination)
+FALLBACK_FASTPATHS = [
+    (3, "solid", "solid", "a8", 0, "a8r8g8b8"), (3, "solid", "solid", "a8", 0, "r5g6b5"), (3, "solid", "solid", "a8r8g8b8", 1, "a8r8g8b8"),
+    (3, "a8r8g8b8", "id", None, 0, "a8r8g8b8"), (3, "a8r8g8b8", "id", None, 0, "r5g6b5"), (3, "a8r8g8b8", "id", "solid", 0, "a8r8g8b8"),
+    (3, "x8r8g8b8", "id", "a8", 0, "a8r8g8b8"), (3, "a8r8g8b8", "id", "a8", 0, "a8r8g8b8"), (3, "a8r8g8b8", "nearest", None, 0, "a8r8g8b8"),
+    (12, "a8", "id", None, 0, "a8"), (12, "a8r8g8b8", "id", None, 0, "a8r8g8b8"), (12, "solid", "solid", "a8", 0, "a8"),
+    (12, "solid", "solid", "a8", 0, "a8r8g8b8"), (1, "a8r8g8b8", "id", None, 0, "r5g6b5"), (1, "r5g6b5", "id", None, 0, "a8r8g8b8"),
+    (1, "solid", "solid", "a8", 0, "a8r8g8b8"), (5, "solid", "solid", "a8", 0, "a8"), (5, "a8", "id", None, 0, "a8"),
+    (4, "solid", "solid", None, 0, "a8r8g8b8"), (8, "a8", "id", None, 0, "r5g6b5"), (8, "a8", "id", None, 0, "a8r8g8b8"),
+]
+
+
+def library_fastpaths(fmts):
+    """the (op, source, mask, destination) combinations pixman has specialised routines for, read from the
+       implementation chain of the library under test (input generation only)"""
+    bycode = {F.code: F for F in fmts.values()}
+    res, seen = [], set()
+    try:
+        exe, _ = vf.build_driver("drv_fastpaths", "plain")
+        out = vf.sh([exe]).stdout
+    except vf.Infra as e:
+        vf.log("drv_fastpaths unavailable (%s): using the built-in fast path list" % str(e)[:200])
+        for op, s, sk, m, ca, d in FALLBACK_FASTPATHS:
+            res.append(dict(op=op, fs=fmts["a8r8g8b8"] if s == "solid" else fmts[s], skind=sk,
+                            fm=None if m is None else (fmts["a8"] if m == "solid" else fmts[m]),
+                            msolid=(m == "solid"), ca=ca, fd=fmts[d]))
+        return res, False
+    for line in out.splitlines():
+        t = line.split()
+        if len(t) != 10:
+            continue
+        level, op, sf, ssolid, sid, snearest, mf, msolid, mca, df = [int(x) for x in t]
+        if op > 62 or SPECIAL_CODES.get(sf) in ("any", "pixbuf", "rpixbuf", "unknown") or \
+                SPECIAL_CODES.get(mf) in ("any", "pixbuf", "rpixbuf", "unknown") or df in SPECIAL_CODES:
+            continue
+        skind = "solid" if ssolid else "id" if sid else "nearest" if snearest else None
+        if skind is None:
+            continue
+        fs = fmts["a8r8g8b8"] if ssolid else bycode.get(sf)
+        fm = None if mf == 0 else (fmts["a8r8g8b8"] if (msolid and mca) else fmts["a8"] if msolid else bycode.get(mf))
+        fd = bycode.get(df)
+        if fs is None or fd is None or (mf != 0 and fm is None):
+            continue
+        if not (c01_domain(fs) and c01_domain(fd) and (fm is None or c01_domain(fm))):
+            continue
+        key = (op, skind, fs.code, None if fm is None else fm.code, bool(msolid), mca, fd.code)
+        if key in seen:
+            continue
+        seen.add(key)
+        res.append(dict(op=op, fs=fs, skind=skind, fm=fm, msolid=bool(msolid), ca=mca, fd=fd))
+    return res, True
+
+
+def build_row(tc, fs, fm, fd, pres, mpres, rng, origin):
+    """one composite request from a TLC-generated row of abstract pixel tuples"""
+    op, mode, fam, row = tc["op"], tc["mode"], tc["fam"], tc["row"]
+    w = len(row)
+    narrow = (not fs.wide) and (not fd.wide) and (fm is None or not fm.wide)
+    exact = op <= 12 and narrow
+    if pres in (3, 6):
+        sx, sw = -2, max(1, w - 3)
+    elif pres == 2:
+        sx = rng.randint(0, 3)
+        sw = (sx + w - 1) // 2 + 2
+    elif pres == 5:
+        sx, sw = rng.randint(0, 5), 1
+    else:
+        sx = rng.randint(0, 2)
+        sw = sx + w + 1
+
+    def spos(i):
+        if pres == 2:
+            return (sx + i) // 2
+        if pres in (3, 6):
+            return min(max(sx + i, 0), sw - 1)
+        if pres == 5:
+            return 0
+        return sx + i
+    spx = [rng.getrandbits(fs.bpp) for _ in range(sw)]
+    for i, t in enumerate(row):
+        v = native_from8(fs, *t["s"])
+        if not exact:
+            v = premult_native(fs, v)
+        spx[spos(i)] = fs.word(v)
+    src = pack_pixels(fs.bpp, spx, 0, sw, rng, pad_words=0 if pres == 5 else 1)
+    if fm is not None:
+        if mpres == 1:
+            mx, mw = rng.randint(0, 3), 1
+            mraw = [fm.word(native_from8(fm, *row[0]["m"]))]
+            mpx = [mraw[0]] * w
+            msk = pack_pixels(fm.bpp, mraw, 0, 1, rng, pad_words=0)
+        else:
+            mx = rng.randint(0, 1)
+            mw = mx + w + 1
+            mpx = [fm.word(native_from8(fm, *t["m"])) for t in row]
+            msk = pack_pixels(fm.bpp, mpx, mx, mw, rng)
+    else:
+        mx, mw, msk, mpx = 0, 0, b"", [0] * w
+    dx = rng.randrange(max(1, 128 // fd.bpp))          # every alignment within a 16-byte block (SIMD heads / tails)
+    dw = dx + w + 1
+    dpx = []
+    for t in row:
+        v = native_from8(fd, *t["d"])
+        if not exact:
+            v = premult_native(fd, v)
+        dpx.append(fd.word(v))
+    dst = pack_pixels(fd.bpp, dpx, dx, dw, rng)
+    line = "C %d %d %d %d %d %d %d %d %d %d %d %d %d %d %d %s %s %s" % (
+        op, 1 if mode == "ca" else 0, 0 if fm is None else 1, fs.code, fm.code if fm else 0, fd.code,
+        pres, mpres, sw, sx, mw, mx, dw, dx, w, hx(src), hx(msk), hx(dst))
+    keys = [(op, mode, fs.code, fm.code if fm else 0, fd.code, spx[spos(i)], mpx[i], dpx[i]) for i in range(w)]
+    return dict(line=line, op=op, mode=mode, fam=fam, fs=fs.name, fm=fm.name if fm else None, fd=fd.name,
+                pres=pres, mpres=mpres, w=w, exact=exact, narrow=narrow, keys=keys, origin=origin)
+
+
+def gen_c01_cases(fmts, tcases, fastpaths, rng, tier):
     quick = tier == "quick"
+    A8888 = fmts["a8r8g8b8"]
     if quick:
         dsts = [fmts[n] for n in QUICK_DST]
         srcs = [fmts[n] for n in QUICK_SRC]
@@ -556,67 +678,47 @@ def gen_c01_cases(fmts, tcases, rng, tier):
         per_case = 14
     out = []
     k = 0
+    # ---- every case class on: the canonical format, a same-format pair, and seeded format triples / presentations
     for tc in tcases:
-        op, mode, fam, row = tc["op"], tc["mode"], tc["fam"], tc["row"]
-        w = len(row)
+        mode = tc["mode"]
         for rep in range(per_case):
             k += 1
-            fd = dsts[k % len(dsts)] if rep or not quick else rng.choice(dsts)
-            fs = rng.choice(srcs)
-            fm = rng.choice(msks) if mode != "none" else None
-            narrow = (not fs.wide) and (not fd.wide) and (fm is None or not fm.wide)
-            exact = op <= 12 and narrow
-            pres = rng.choice([0, 0, 0, 1, 2, 3, 4, 4]) if rep else 0
-            # ---- source row
-            if pres == 3:
-                sx = -2
-                sw = max(1, w - 3)
-            elif pres == 2:
-                sx = rng.randint(0, 3)
-                sw = (sx + w - 1) // 2 + 2
+            if rep == 0:
+                fs, fd, pres, mpres = A8888, A8888, 0, 0
+                fm = None if mode == "none" else (A8888 if mode == "ca" else fmts["a8"])
+            elif rep == 1:
+                fd = dsts[k % len(dsts)]
+                fs = fd
+                fm = None if mode == "none" else msks[k % len(msks)]
+                pres = rng.choice([0, 1, 2, 3, 4, 5, 6])
+                mpres = rng.choice([0, 0, 1])
             else:
-                sx = rng.randint(0, 2)
-                sw = sx + w + 1
-
-            def spos(i):
-                if pres == 2:
-                    return (sx + i) // 2
-                if pres == 3:
-                    return min(max(sx + i, 0), sw - 1)
-                return sx + i
-            spx = [rng.getrandbits(fs.bpp) for _ in range(sw)]
-            keys = []
-            for i, t in enumerate(row):
-                v = native_from8(fs, *t["s"])
-                if not exact:
-                    v = premult_native(fs, v)
-                spx[spos(i)] = fs.word(v)
-            src = pack_pixels(fs.bpp, spx, 0, sw, rng)
-            # ---- mask row
-            if fm is not None:
-                mx = rng.randint(0, 1)
-                mw = mx + w + 1
-                mpx = [fm.word(native_from8(fm, *t["m"])) for t in row]
-                msk = pack_pixels(fm.bpp, mpx, mx, mw, rng)
+                fd = dsts[k % len(dsts)]
+                fs = rng.choice(srcs)
+                fm = None if mode == "none" else rng.choice(msks)
+                pres = rng.choice([0, 0, 1, 2, 3, 4, 4, 5, 6])
+                mpres = rng.choice([0, 0, 0, 1])
+            out.append(build_row(tc, fs, fm, fd, pres, mpres, rng, "class"))
+    # ---- every specialised routine of the implementation chain (and the general path on the same requests)
+    by = {}
+    for tc in tcases:
+        by.setdefault((tc["op"], tc["mode"]), []).append(tc)
+    for fp in fastpaths:
+        mode = "none" if fp["fm"] is None else ("ca" if fp["ca"] else "unified")
+        cands = by.get((fp["op"], mode), [])
+        if not cands:
+            continue
+        picks = [c for c in cands if c["fam"] in ("sat", "rnd")] + [rng.choice(cands)]
+        if not quick:
+            picks = cands
+        for tc in picks:
+            if fp["skind"] == "solid":
+                pres = 5
+            elif fp["skind"] == "id":
+                pres = 0
             else:
-                mx, mw, msk, mpx = 0, 0, b"", [0] * w
-            # ---- destination row
-            dx = rng.choice(offsets_for(fd.bpp))
-            dw = dx + w + 1
-            dpx = []
-            for t in row:
-                v = native_from8(fd, *t["d"])
-                if not exact:
-                    v = premult_native(fd, v)
-                dpx.append(fd.word(v))
-            dst = pack_pixels(fd.bpp, dpx, dx, dw, rng)
-            line = "C %d %d %d %d %d %d %d %d %d %d %d %d %d %d %s %s %s" % (
-                op, 1 if mode == "ca" else 0, 0 if fm is None else 1, fs.code, fm.code if fm else 0, fd.code,
-                pres, sw, sx, mw, mx, dw, dx, w, hx(src), hx(msk), hx(dst))
-            for i in range(w):
-                keys.append((op, mode, fs.code, fm.code if fm else 0, fd.code, spx[spos(i)], mpx[i], dpx[i]))
-            out.append(dict(line=line, op=op, mode=mode, fam=fam, fs=fs.name, fm=fm.name if fm else None, fd=fd.name,
-                            pres=pres, w=w, exact=exact, narrow=narrow, keys=keys))
+                pres = rng.choice([2, 4, 6])
+            out.append(build_row(tc, fp["fs"], fp["fm"], fp["fd"], pres, 1 if fp["msolid"] else 0, rng, "fastpath"))
     return out
 
 
@@ -634,7 +736,7 @@ def run_c01(args):
         script = args.replay if args.replay.endswith(".script") else args.replay + ".script"
         e = dict(os.environ)
         if os.path.exists(script + ".general"):
-            e.update(GENERAL_ONLY)
+            e["PIXMAN_DISABLE"] = open(script + ".general").read().strip()
         vf.sh([exe, script, tr], timeout=600, env=e)
         vf.validate_batches(chk, "CombineTrace", [tr], parallel=1)
         return chk.finish()
@@ -652,8 +754,16 @@ def run_c01(args):
     # 2. case classes enumerated by TLC, mapped on formats and presentations
     tcases, r = tlc_cases(args.seed)
     chk.add_tlc(r, "case class enumeration (CombineGen)")
+    if args.tier != "quick":                     # more pixel tuples per class: further enumerations under other seeds
+        for extra_seed in (args.seed + 1000, args.seed + 2000):
+            more, r = tlc_cases(extra_seed)
+            chk.add_tlc(r, "case class enumeration (CombineGen, seed %d)" % extra_seed)
+            tcases += more
     chk.extra["tlc_generated_case_classes"] = len(tcases)
-    cases = gen_c01_cases(fmts, tcases, rng, args.tier)
+    fastpaths, from_lib = library_fastpaths(fmts)
+    chk.extra["fast_path_combinations"] = len(fastpaths)
+    chk.extra["fast_path_list_from_library"] = from_lib
+    cases = gen_c01_cases(fmts, tcases, fastpaths, rng, args.tier)
     lines = [c["line"] for c in cases]
     chk.sample({"tlc_case_class": {k: (v if k != "row" else v[:2]) for k, v in tcases[len(tcases) // 2].items()}})
     chk.sample({k: v for k, v in cases[1].items() if k not in ("keys", "line")})
@@ -662,7 +772,9 @@ def run_c01(args):
     chk.extra["pixel_cases"] = npx
     chk.extra["pixel_cases_exact_class"] = sum(c["w"] for c in cases if c["exact"])
     chk.extra["pixel_cases_tolerance_class"] = sum(c["w"] for c in cases if not c["exact"])
-    chk.extra["rows_by_presentation"] = {str(p): sum(1 for c in cases if c["pres"] == p) for p in range(5)}
+    chk.extra["rows_by_presentation"] = {str(p): sum(1 for c in cases if c["pres"] == p) for p in range(7)}
+    chk.extra["rows_with_solid_mask"] = sum(1 for c in cases if c["mpres"] == 1)
+    chk.extra["rows_aimed_at_fast_paths"] = sum(1 for c in cases if c["origin"] == "fastpath")
     chk.extra["rows_wide_pipeline_with_mask_and_transformed_source"] = sum(
         1 for c in cases if c["pres"] != 0 and c["mode"] != "none" and (not c["narrow"] or c["op"] in NEEDS_DIV))
     chk.extra["operators"] = len(set(c["op"] for c in cases))
@@ -675,10 +787,13 @@ def run_c01(args):
     nb = 12
     traces = run_driver(exe, lines, wd, "def", nb)
     traces_g = run_driver(exe, lines, wd, "gen", nb, env_extra=GENERAL_ONLY)
-    chk.evaluations = 2 * npx
+    # the portable C fast paths are shadowed by the SIMD ones in the default chain: run them on their own
+    cfast = [c for c in cases if c["origin"] == "fastpath" or args.tier != "quick"]
+    traces_c = run_driver(exe, [c["line"] for c in cfast], wd, "cfp", nb, env_extra=C_FAST_PATHS)
+    chk.evaluations = 2 * npx + sum(c["w"] for c in cfast)
 
     # 4. trace validation
-    vf.validate_batches(chk, "CombineTrace", traces + traces_g, parallel=12, timeout=2400, xmx="4g")
+    vf.validate_batches(chk, "CombineTrace", traces + traces_g + traces_c, parallel=12, timeout=2400, xmx="4g")
     for v in chk.violations:
         save_replay_script(v, wd, traces_g)
     chk.extra["rule"] = ("a case is one destination pixel of one composite request; distinct = distinct (operator, mask mode, "
